@@ -82,7 +82,7 @@ def _is_model_path(path):
     return any(s == "arm_to_model" for s in path)
 
 
-def align(src, dst, salt=0):
+def align(src, dst, salt=0, normalise=True):
     """Give dst the random-stream positions of src.  Returns the mode used.
 
     pathwise   : same path set and same alias partition - states copied path by path, nothing else touched.
@@ -102,6 +102,16 @@ def align(src, dst, salt=0):
             done.add(id(w))
             set_state(w, get_state(ps[p]))
         return "pathwise"
+    if not normalise:
+        # alias structures differ and the caller wants no leniency: every generator of dst takes the position of
+        # the generator found under the same path in src (an aliased group takes the first path's position)
+        done = set()
+        for p, w in fd:
+            if id(w) in done:
+                continue
+            done.add(id(w))
+            set_state(w, get_state(ps[p]))
+        return "pathwise_alias_mismatch"
     from mabwiser.utils import create_rng
     model_paths = sorted(p for p in ps if _is_model_path(p))
     for bandit in (src, dst):
